@@ -1,6 +1,7 @@
 """C05 — failures are contained, reported, never recorded as success (DESIGN 5.5)."""
 from facts import AnalysisBroken
 from model import dstr, strip, fact_holds, mentions_field, mentions_call, mentions_var, const_value
+from props.scan_common import check_build_exit_codes
 from rules import (guarded, calls_to, field_writes, who_may_write, error_discipline, atom_cmp,
                    is_enum, is_var, is_field, has_field, anything, must_pass, basename)
 
@@ -291,7 +292,28 @@ def run(ctx):
                     if fact_holds(fc.facts_at(x), success_atom, False))
         ctx.check('C05.G5', r is None or after, fc.name, 'failed-command:stale-log-entry-kept', fc.where(e),
                   'the failure path invalidates the outputs\' earlier build-log entries or removes the outputs')
-    ctx.floor('C05.G5', 1)
+    # "no record is written for it, so the next build retries it": an output without a log entry
+    # must come out dirty whatever else holds
+    nle = 0
+    for f in prog.functions.values():
+        if not f.name.startswith('RecomputeOutputsDirtyCache::RecomputeOutputDirty<true>'):
+            continue
+        for bid, b in f.blocks.items():
+            for i, s2 in enumerate(b['succ']):
+                if s2 is None:
+                    continue
+                for k, pol, atom in f.edge_facts(bid, i):
+                    if pol is False and (mentions_call(atom, 'RecomputeOutputsDirtyCache::CachedLogEntry::is_valid') or
+                                         mentions_field(atom, 'RecomputeOutputsDirtyCache::CachedLogEntry::entry_')):
+                        nle += 1
+                        r = f.find_path(None, lambda x: x['k'] == 'ret' and const_value(x.get('e')) == 0, from_succ=s2)
+                        ctx.check('C05.G5', r is None, 'RecomputeOutputsDirtyCache::RecomputeOutputDirty', 'no-log-entry:treated-clean',
+                                  'src/graph.cc:%s' % f.term(bid)['line'],
+                                  'an output that has no build-log entry is reported dirty',
+                                  witness=None if r is None else {'blocks': r[0]})
+    ctx.check('C05.G5', nle >= 1, 'RecomputeOutputsDirtyCache::RecomputeOutputDirty', 'no-log-entry:test-absent', 'src/graph.cc',
+              'the scan tests whether the output has a build-log entry (%d edges)' % nle)
+    ctx.floor('C05.G5', 3)
 
     # ---- G4: wait status -> ExitStatus ----------------------------------------------------------
     R('C05.G4', 'G', 'where a wait status becomes an ExitStatus, the exit-code bits '
@@ -341,7 +363,8 @@ def run(ctx):
     soft = {f.name: 'query/maintenance tool: reports with Warning/Error and carries on' for f in fns
             if f.name.startswith('NinjaMain::Tool')}
     error_discipline(ctx, 'C05.E1', fns, ignore=IGNORE_E1, soft_ok=soft)
-    ctx.floor('C05.E1', 25)
+    check_build_exit_codes(ctx, 'C05.E1', prog)
+    ctx.floor('C05.E1', 26)
     ctx.table('C05.E1.ignore', {'%s -> %s' % k: v for k, v in IGNORE_E1.items()})
 
 
